@@ -728,4 +728,123 @@ MUTANTS = [
       "                if items.is_empty() {\n                    output = quote! { ::proto_vulcan::lterm::LTerm::empty_list() };\n                } else {\n                    output =\n                        quote! { ::proto_vulcan::lterm::LTerm::from_array( &[ #(#items),* ] ) };\n                }",
       "                output = quote! { ::proto_vulcan::lterm::LTerm::from_array( &[ #(#items),* ] ) };",
       silent=True),
+    # ---- C12 / C13 / C15 / C20 -------------------------------------------------------------
+    M("c12-everyg-skip-first", ["C12"], "src/operator/everyg.rs",
+      "let goal_iter = term_iter.map(|term| (*self.g)(term.clone()));",
+      "let goal_iter = term_iter.skip(1).map(|term| (*self.g)(term.clone()));",
+      {"C12": "every-element-once"}),
+    M("c12-from-iter-unit-fail", ["C12"], "src/operator/conj.rs",
+      "        let mut p = G::succeed();\n        for g in iter {",
+      "        let mut p = G::fail();\n        for g in iter {",
+      {"C12": "unit-is-succeed"}),
+    M("c12-for-body-outside-closure", ["C12"], "macros/src/lib.rs",
+      "Box::new(|#pattern| ::proto_vulcan::GoalCast::cast_into(::proto_vulcan::operator::conj::InferredConj::from_conjunctions(&[ #( #body ),* ]))),",
+      "Box::new(|#pattern| ::proto_vulcan::GoalCast::cast_into(::proto_vulcan::operator::conj::InferredConj::from_conjunctions(&[ #( #body ),* ][1..]))),",
+      {"C12": "For"}),
+    M("c13-term-alias-after-vars", ["C13", "C15"], "macros/src/lib.rs",
+      """                        let __term__ = #term;
+                        // Define new variables found in the pattern
+                        #( let #vars = ::proto_vulcan::lterm::LTerm::var(stringify!(#vars)); )*
+                        #( let #compounds = ::proto_vulcan::compound::CompoundTerm::new_var(stringify!(#compounds)); )*
+                        let __pattern__ = #patterns;
+                        [::proto_vulcan::GoalCast::cast_into(
+                            ::proto_vulcan::relation::eq(__term__, __pattern__)),
+                         #clauses]
+                    } ),* ],
+                )
+            }
+        } else {""",
+      """                        // Define new variables found in the pattern
+                        #( let #vars = ::proto_vulcan::lterm::LTerm::var(stringify!(#vars)); )*
+                        #( let #compounds = ::proto_vulcan::compound::CompoundTerm::new_var(stringify!(#compounds)); )*
+                        let __term__ = #term;
+                        let __pattern__ = #patterns;
+                        [::proto_vulcan::GoalCast::cast_into(
+                            ::proto_vulcan::relation::eq(__term__, __pattern__)),
+                         #clauses]
+                    } ),* ],
+                )
+            }
+        } else {""",
+      {"C13": "arm-block|match", "C15": "creation-per-scope"}),
+    M("c13-arm-clauses-skip-first", ["C13"], "macros/src/lib.rs",
+      "                for clause in arm.body.iter() {\n                    let tokens = quote! {",
+      "                for clause in arm.body.iter().skip(1) {\n                    let tokens = quote! {",
+      {"C13": "list=clauses"}),
+    M("c13-compound-wildcard-shared", ["C13"], "macros/src/lib.rs",
+      "                TreeTerm::Any(_) => {\n                    let output = quote! { ::proto_vulcan::compound::CompoundTerm::new_wildcard() };\n                    output.to_tokens(tokens);\n                }\n                term if term.is_empty() => {\n                    let output = quote! { ::proto_vulcan::compound::CompoundTerm::new_none() };",
+      "                TreeTerm::Any(_) => {\n                    let output = quote! { ::proto_vulcan::compound::CompoundTerm::new_none() };\n                    output.to_tokens(tokens);\n                }\n                term if term.is_empty() => {\n                    let output = quote! { ::proto_vulcan::compound::CompoundTerm::new_none() };",
+      {"C13": "CompoundArgument|Any"}),
+    M("c15-var-reuses-id", ["C15"], "src/lterm.rs",
+      "    pub fn any() -> LTerm<U, E> {\n        LTerm {\n            inner: Rc::new(LTermInner::Var(VarID::new(), \"_\")),",
+      "    pub fn any() -> LTerm<U, E> {\n        LTerm {\n            inner: Rc::new(LTermInner::Var(VarID(0), \"_\")),",
+      {"C15": "unique-ids"}),
+    M("c15-name-used-in-eq", ["C15"], "src/lterm.rs",
+      "            (LTermInner::Var(self_uid, _), LTermInner::Var(other_uid, _)) => self_uid == other_uid,",
+      "            (LTermInner::Var(self_uid, a), LTermInner::Var(other_uid, b)) => self_uid == other_uid && a == b,",
+      {"C15": "reads-name"}),
+    M("c15-closure-body-hoisted", ["C15", "C14"], "macros/src/lib.rs",
+      """        let output = quote! {{
+            ::proto_vulcan::operator::closure::Closure::new(
+                ::proto_vulcan::operator::ClosureOperatorParam::new(
+                    Box::new(move || ::proto_vulcan::GoalCast::cast_into(::proto_vulcan::operator::conj::InferredConj::from_array( &[ #( ::proto_vulcan::GoalCast::cast_into( #body ) ),* ] ) ))
+                )
+            )
+        }};""",
+      """        let output = quote! {{
+            let __goal__ = ::proto_vulcan::GoalCast::cast_into(::proto_vulcan::operator::conj::InferredConj::from_array( &[ #( ::proto_vulcan::GoalCast::cast_into( #body ) ),* ] ) );
+            ::proto_vulcan::operator::closure::Closure::new(
+                ::proto_vulcan::operator::ClosureOperatorParam::new(
+                    Box::new(move || ::std::clone::Clone::clone(&__goal__))
+                )
+            )
+        }};""",
+      {"C15": "creation-per-unfolding", "C14": "construct|Closure"}),
+    M("c20-derive-eq-cross-fields", ["C20"], "macros/src/lib.rs",
+      "                    #( ::std::cmp::PartialEq::eq(&self.#field_indices, &other.#field_indices) &&)* true",
+      "                    #( ::std::cmp::PartialEq::eq(&self.#field_indices, &self.#field_indices) &&)* true",
+      {"C20": "PartialEq::eq|pairwise"}),
+    M("c20-derive-children-skip", ["C20"], "macros/src/lib.rs",
+      "    let field_names: Vec<syn::Ident> = itemstruct\n        .fields\n        .iter()\n        .map(",
+      "    let field_names: Vec<syn::Ident> = itemstruct\n        .fields\n        .iter()\n        .skip(1)\n        .map(",
+      {"C20": "field-list-complete"}),
+    M("c20-tuple-children-one", ["C20"], "src/compound.rs",
+      "            &self.0 as &dyn CompoundObject<U, E>,\n            &self.1 as &dyn CompoundObject<U, E>,",
+      "            &self.0 as &dyn CompoundObject<U, E>,\n            &self.0 as &dyn CompoundObject<U, E>,",
+      {"C20": "tuple|children"}),
+    M("c20-option-none-not-empty", ["C20"], "src/compound.rs",
+      "            None => LTerm::empty_list(),\n        }\n    }\n}\n\nimpl<U, E> CompoundTerm<U, E> for LTerm<U, E>",
+      "            None => LTerm::any(),\n        }\n    }\n}\n\nimpl<U, E> CompoundTerm<U, E> for LTerm<U, E>",
+      {"C20": "Option|into-term"}),
+    M("silent-c13-lets-order", ["C13", "C15"], "macros/src/lib.rs",
+      """                        #( let #vars = ::proto_vulcan::lterm::LTerm::var(stringify!(#vars)); )*
+                        #( let #compounds = ::proto_vulcan::compound::CompoundTerm::new_var(stringify!(#compounds)); )*
+                        let __pattern__ = #patterns;
+                        [::proto_vulcan::GoalCast::cast_into(
+                            ::proto_vulcan::relation::eq(__term__, __pattern__)),
+                         #clauses]
+                    } ),* ],
+                )
+            }
+        } else {""",
+      """                        #( let #compounds = ::proto_vulcan::compound::CompoundTerm::new_var(stringify!(#compounds)); )*
+                        #( let #vars = ::proto_vulcan::lterm::LTerm::var(stringify!(#vars)); )*
+                        let __pattern__ = #patterns;
+                        [::proto_vulcan::GoalCast::cast_into(
+                            ::proto_vulcan::relation::eq(__term__, __pattern__)),
+                         #clauses]
+                    } ),* ],
+                )
+            }
+        } else {""",
+      silent=True),
+    M("silent-c12-rename-closure-local", ["C12"], "src/operator/everyg.rs",
+      "        let term_iter = IntoIterator::into_iter(&self.coll);\n        let goal_iter = term_iter.map(|term| (*self.g)(term.clone()));\n        InferredConj::from_iter(goal_iter).goal.solve(solver, state)",
+      "        let elements = (&self.coll).into_iter();\n        let goals = elements.map(|t| (self.g)(t.clone()));\n        let conjunction = InferredConj::from_iter(goals);\n        conjunction.goal.solve(solver, state)",
+      silent=True),
+    # ---- C09: reverse of fix aa63fca --------------------------------------------------------
+    M("c09-hidden-vars-hash-order", ["C09"], "src/state/reification.rs",
+      "            hidden.sort_by_key(|v| match v.as_ref() {\n                LTermInner::Var(id, _) => Some(*id),\n                _ => None,\n            });\n",
+      "",
+      {"C09": "hash-order-into-committed-choice"}),
 ]
